@@ -51,7 +51,17 @@ def cinit(img):
     return '{' + ','.join('{' + ','.join(str(v) for v in s) + '}' for s in img) + '}'
 
 
-XXX
+def inst(hms, vss=(None,), quick_step=12):
+    """quick tier: every quick_step-th structure of the 2-slot tables; thorough: all of them (each instance costs ~1-2 min)"""
+    out = []
+    for hm in hms:
+        for n, img in enumerate(images(hm)):
+            for vs in vss:
+                d = dict(HM=hm, IMGID=n, _IMG_INIT=cinit(img), unwind=hm + 3)
+                if vs is not None:
+                    d['VS'] = vs
+                if hm >= 3 or n % quick_step != 0:
+                    d['tier'] = 'thorough'
                 out.append(d)
     return out
 
@@ -59,7 +69,7 @@ XXX
 def ag(name, entry, funcs, instances, **kw):
     d = dict(name='hasharr_' + name, harness='qhasharr/hasharr.c', entry=entry, mode='unwind', unwind=8, fp=True, props=P, functions=funcs,
              units=U, strength='bounded', timeout=900, weave={'src/containers/qhasharr.c': {'rules': 'weave/rules/qhasharr.json'}}, flags=['--memory-leak-check'], native_leaks=True, unwindset='qv_memcpy.0:17',
-             bound='every well-formed slot structure of a table with HM slots (quick 2, thorough 3) over a 3-key alphabet with uninterpreted placement hash; block sizes 1 and full; value bytes arbitrary; put value length VS in {1,33,99}',
+             bound='every well-formed slot structure of a table with HM slots (2 slots: quick a ninth of the 97 structures, thorough all) over a 3-key alphabet with uninterpreted placement hash; block sizes 1 and full; value bytes arbitrary; put value length VS in {1,33,99}',
              instances=instances)
     d.update(kw)
     return d
@@ -67,9 +77,9 @@ def ag(name, entry, funcs, instances, **kw):
 
 GROUPS = [
     ag('put', 'h_put', ['qhasharr_put_by_obj', 'put_data', 'get_idx', 'find_avail', 'copy_slot', 'remove_slot', 'remove_data', 'qhasharr_remove_by_idx'],
-       inst((2, 3), (1, 33, 99)), unwindset='qv_memcpy.0:17,qhashmd5.0:17'),
-    ag('get_remove', 'h_get_remove', ['qhasharr_get_by_obj', 'get_data', 'get_idx', 'qhasharr_remove_by_obj', 'qhasharr_remove_by_idx', 'qhasharr_size'], inst((2, 3))),
-    ag('idx_walk_clear', 'h_idx_walk_clear', ['qhasharr_remove_by_idx', 'qhasharr_getnext', 'qhasharr_clear'], inst((2, 3))),
+       inst((2,), (1, 33, 99)), unwindset='qv_memcpy.0:17,qhashmd5.0:17'),
+    ag('get_remove', 'h_get_remove', ['qhasharr_get_by_obj', 'get_data', 'get_idx', 'qhasharr_remove_by_obj', 'qhasharr_remove_by_idx', 'qhasharr_size'], inst((2,))),
+    ag('idx_walk_clear', 'h_idx_walk_clear', ['qhasharr_remove_by_idx', 'qhasharr_getnext', 'qhasharr_clear'], inst((2,))),
     ag('init_attach', 'h_init_attach', ['qhasharr', 'qhasharr_calculate_memsize', 'qhasharr_free'], [dict(HM=2, unwind=6), dict(HM=4, unwind=6)], props=['C07', 'C11']),
     ag('relocate', 'h_relocate', ['qhasharr_put_by_obj', 'qhasharr'], inst((2,), (33,)), props=['C07'], unwindset='qv_memcpy.0:17,qhashmd5.0:17'),
 ]
